@@ -96,6 +96,7 @@ func rulesC10(c *Ctx) {
 		c.OK("C10.exactint", "getTimeRange: integer-to-float conversions", g.Pos(), fmt.Sprintf("%d", n))
 	}
 	sentinelsC10(c)
+	zoneRulesC10(c)
 	exactTimeRule(c, "C10.exacttime", "ConditionExpr", "conditionExpr", "reduce")
 	residualC10(c, ce)
 	// the residual is built through reduce: its boolean short-cuts decide
@@ -825,4 +826,95 @@ func exactTimeRule(c *Ctx, rule string, roots ...string) {
 		}
 	}
 	c.Floor(rule, n, 8)
+}
+
+// zoneRulesC10: the zone a condition is read in reaches every literal.
+func zoneRulesC10(c *Ctx) {
+	p := c.P
+	c.Rule("C10.zoneparse", "StringLiteral.ToTimeLiteral turns text into an instant only through time.ParseInLocation with its location parameter (defaulted to UTC when nil): a form parsed with time.Parse is read as UTC whatever zone the condition is evaluated in, so the bound is off by the zone offset")
+	if f := p.SSAFunc(p.Method("StringLiteral", "ToTimeLiteral")); f == nil {
+		c.Unk("C10.zoneparse", "(*StringLiteral).ToTimeLiteral", 0, "anchor not found")
+	} else {
+		n := 0
+		for _, b := range f.Blocks {
+			for _, in := range b.Instrs {
+				call, ok := in.(*ssa.Call)
+				if !ok || call.Call.StaticCallee() == nil {
+					continue
+				}
+				switch call.Call.StaticCallee().String() {
+				case "time.Parse":
+					n++
+					c.Bad("C10.zoneparse", fmt.Sprintf("ToTimeLiteral: parse #%d", n), call.Pos(), "time.Parse reads a zone-less text as UTC; the location parameter is ignored for this form")
+				case "time.ParseInLocation":
+					n++
+					key := fmt.Sprintf("ToTimeLiteral: parse #%d", n)
+					fromParam := false
+					var walk func(v ssa.Value, d int)
+					walk = func(v ssa.Value, d int) {
+						if d > 4 {
+							return
+						}
+						switch x := v.(type) {
+						case *ssa.Parameter:
+							if len(f.Params) == 2 && x == f.Params[1] {
+								fromParam = true
+							}
+						case *ssa.Phi:
+							for _, e := range x.Edges {
+								walk(e, d+1)
+							}
+						}
+					}
+					walk(call.Call.Args[2], 0)
+					if fromParam {
+						c.OK("C10.zoneparse", key, call.Pos(), "in the caller's location")
+					} else {
+						c.Bad("C10.zoneparse", key, call.Pos(), "parsed in a location that is not the one the caller asked for")
+					}
+				}
+			}
+		}
+		c.Floor("C10.zoneparse", n, 3)
+	}
+	c.Rule("C10.zonefirst", "multiValuer.Zone returns a member's zone only where that zone was tested non-nil (the first member that has one decides): handing back the first zone-aware member's nil makes a later member's zone unreachable, and zone-less literals are read as UTC")
+	if f := p.SSAFunc(p.Method("multiValuer", "Zone")); f == nil {
+		c.Unk("C10.zonefirst", "multiValuer.Zone", 0, "anchor not found")
+	} else {
+		n := 0
+		for _, b := range f.Blocks {
+			ret, ok := b.Instrs[len(b.Instrs)-1].(*ssa.Return)
+			if !ok || len(ret.Results) != 1 {
+				continue
+			}
+			if isNilConst(ret.Results[0]) {
+				continue
+			}
+			n++
+			key := fmt.Sprintf("multiValuer.Zone: return #%d", n)
+			v := ret.Results[0]
+			guarded := false
+			for d := b; d != nil && !guarded; d = d.Idom() {
+				for _, pr := range d.Preds {
+					ifi, ok := pr.Instrs[len(pr.Instrs)-1].(*ssa.If)
+					if !ok || len(d.Preds) != 1 {
+						continue
+					}
+					bo, ok := ifi.Cond.(*ssa.BinOp)
+					if !ok || bo.X != v || !isNilConst(bo.Y) {
+						continue
+					}
+					if (bo.Op == token.NEQ && pr.Succs[0] == d) || (bo.Op == token.EQL && pr.Succs[1] == d) {
+						guarded = true
+					}
+				}
+			}
+			if guarded {
+				c.OK("C10.zonefirst", key, ret.Pos(), "returned only where it is non-nil")
+			} else {
+				c.Bad("C10.zonefirst", key, ret.Pos(), "a member's zone is returned untested: a zone-aware member without a zone hides the zone of a later member")
+			}
+		}
+		c.Floor("C10.zonefirst", n, 1)
+	}
 }
